@@ -54,9 +54,20 @@ def run(ctx, lang, word, st=None, method='apply', ev=None):
     return Out(r, b0, snap)
 
 
+# The blocking flags are a private encoding of the interpreters (a bitflags type today); the rules never name its constants.
+# A flag state is obtained the way the library obtains it: by evaluating the word that stores it.
+FLAG_PRODUCERS = {
+    ('fr', 'UN'): ('vingt', b''), ('de', 'TENS'): ('ein', b''), ('nl', 'TENS'): ('een', b''),
+    ('pt', 'CONJUNCTION'): ('e', b'20'), ('pt', 'ONLY_MULTIPLIERS'): ('cem', b''),
+}
+
+
 def flag_bits(ctx, lang, name):
-    ty = {'fr': 'lang::fr::Excludable', 'de': 'lang::de::Excludable', 'nl': 'lang::nl::Excludable', 'pt': 'lang::pt::Restriction'}[lang]
-    return evaluator(ctx, lang).const_value('%s::%s' % (ty, name)).bits
+    """The value of `flags` the interpreter itself leaves after the word that sets restriction `name`."""
+    def mk():
+        w, d = FLAG_PRODUCERS[(lang, name)]
+        return run(ctx, lang, w, state(d)).flags
+    return ctx.memo(('flag-bits', lang, name), mk)
 
 
 def digits_after(out):
@@ -325,8 +336,8 @@ def rule_flags_lifecycle(ctx, rep, langs=ALL_LANGS):
             ent = lang + '|success-stores'
             o = _safe(rep, R, ent, lambda: run(ctx, lang, w))
             if o is not None:
-                rep.check(o.ok and o.flags == flag_bits(ctx, lang, flag), R, ent, '"%s" stores %s' % (w, flag),
-                          'after "%s" the flags are %s, expected %s' % (w, o.flags, flag))
+                rep.check(o.ok and o.flags != 0, R, ent, '"%s" stores a restriction (%s)' % (w, flag),
+                          'after "%s" the flags are %s: no restriction is stored' % (w, o.flags))
             ent = lang + '|success-overwrites'
             o = _safe(rep, R, ent, lambda: run(ctx, lang, plain, state(b'2', flags=flag_bits(ctx, lang, flag))))
             if o is not None:
@@ -339,8 +350,10 @@ def rule_flags_lifecycle(ctx, rep, langs=ALL_LANGS):
                           'after a rejected word the flags are %s, expected 0' % o.flags)
         if lang == 'pt':
             CJ, OM = flag_bits(ctx, 'pt', 'CONJUNCTION'), flag_bits(ctx, 'pt', 'ONLY_MULTIPLIERS')
-            for ent, w, st, want in (('pt|cem', 'cem', None, OM), ('pt|e', 'e', state(b'20'), CJ), ('pt|dois', 'dois', state(b'20', flags=CJ), 0),
-                                     ('pt|rejected', 'xyzzy', state(b'20', flags=CJ | OM), 0)):
+            rep.check(CJ != 0 and OM != 0 and CJ != OM, R, 'pt|distinct', '"e" and "cem" store distinct restrictions (%s, %s)' % (CJ, OM),
+                      '"e" stores %s and "cem" stores %s: the two restrictions cannot be told apart' % (CJ, OM))
+            for ent, w, st, want in (('pt|dois', 'dois', state(b'20', flags=CJ), 0), ('pt|rejected', 'xyzzy', state(b'20', flags=CJ), 0),
+                                     ('pt|rejected-after-cem', 'xyzzy', state(b'100', flags=OM), 0)):
                 o = _safe(rep, R, ent, lambda: run(ctx, lang, w, st))
                 if o is not None:
                     rep.check(o.flags == want, R, ent, 'flags become %s' % want, 'after "%s" the flags are %s, expected %s' % (w, o.flags, want))
